@@ -280,6 +280,37 @@ func runC08(c *an.Ctx) {
 			fmt.Sprintf("tx.%s is read %d time(s) outside the rule loop (and %d inside): the loop works on a snapshot, so an exclusion added by a rule of this phase does not apply to the later rules of the same phase", fld, nOut, nIn))
 	}
 
+	// a rule removed for this transaction is out of the way before anything else is decided about it: the removal
+	// lists are consulted before the skip counter (and the skipAfter / allow switches), so a removed rule neither
+	// consumes a skip count nor ends a skipAfter
+	{
+		var skipBlk *ssa.BasicBlock
+		an.Instrs(m.fn, func(in ssa.Instruction) {
+			if u, ok := in.(*ssa.UnOp); ok && u.Op == token.MUL && an.IsFieldAddrOf(u.X, fullWAF, "Transaction", "Skip") && m.loop.Blocks[in.Block()] {
+				if skipBlk == nil || in.Block().Dominates(skipBlk) {
+					skipBlk = in.Block()
+				}
+			}
+		})
+		for _, fld := range []string{"ruleRemoveByID", "ruleRemoveByIDRanges"} {
+			okOrder, seenLd := true, false
+			an.Instrs(m.fn, func(in ssa.Instruction) {
+				u, ok := in.(*ssa.UnOp)
+				if !ok || u.Op != token.MUL || !an.IsFieldAddrOf(u.X, fullWAF, "Transaction", fld) || !m.loop.Blocks[in.Block()] {
+					return
+				}
+				seenLd = true
+				if skipBlk != nil && !(in.Block() != skipBlk && in.Block().Dominates(skipBlk)) {
+					okOrder = false
+				}
+			})
+			if seenLd && skipBlk != nil {
+				c.Check(okOrder, "R4", "Eval: tx."+fld+" is consulted before the skip counter", skipBlk.Instrs[0].Pos(), "removal test dominates the skip test",
+					"the run-time removal list "+fld+" is looked at after the skip counter was consulted: a rule removed by ctl still uses up a skip:N count (and ends up being counted although the rewritten configuration does not contain it), so skip:N ends one rule early per removed rule in its window")
+			}
+		}
+	}
+
 	// skip:N counts every entry of the current phase that is not removed: an iteration may go on to the next rule
 	// without having consulted the skip counter only because of the phase filter, the removal lists or a pending
 	// skipAfter (facts on the continuing block); anything else (e.g. "markers need no evaluation") makes some
@@ -363,6 +394,44 @@ func runC08(c *an.Ctx) {
 
 	// ---- R7 the flow actions of a fired rule always run.
 	c08FlowActionsRun(c)
+	// ... and they are what they are classified as: the engine runs non-disruptive actions per match *before* the
+	// chain is known to have completed, flow and disruptive ones once, after it.  The class of the steering actions
+	// is therefore part of the contract.
+	wantType := map[string]string{"skip": "ActionTypeFlow", "skipafter": "ActionTypeFlow", "chain": "ActionTypeFlow",
+		"allow": "ActionTypeDisruptive", "deny": "ActionTypeDisruptive", "drop": "ActionTypeDisruptive", "redirect": "ActionTypeDisruptive", "pass": "ActionTypeDisruptive", "block": "ActionTypeDisruptive"}
+	nTy := 0
+	for name, want := range wantType {
+		fnT := c.FnOpt("internal/actions.(*" + name + "Fn).Type")
+		if fnT == nil {
+			continue
+		}
+		nTy++
+		wantV := constVal(c, "R7", "experimental/plugins/plugintypes", want)
+		got := ""
+		an.Instrs(fnT, func(in ssa.Instruction) {
+			if r, ok := in.(*ssa.Return); ok && len(r.Results) == 1 {
+				got = an.Expr(r.Results[0])
+			}
+		})
+		c.Check(got == wantV, "R7", "action "+name+" is classified "+want, fnT.Pos(), "Type() returns "+got, "action "+name+" reports type "+got+" instead of "+want+" ("+wantV+"): the engine then runs it at another point — a flow action classified as non-disruptive fires as soon as the chain starter matches, before the links are evaluated")
+	}
+	c.MinCount("R7", "steering actions with a checked class", nTy, 7)
+	// the allow action hands its scope to the transaction unconditionally (the engine-mode test lives in
+	// Transaction.Allow, R3): no phase or state test in the action itself
+	if ae := c.FnOpt("internal/actions.(*allowFn).Evaluate"); ae != nil {
+		nA := 0
+		an.Instrs(ae, func(in ssa.Instruction) {
+			cc := an.CallOf(in)
+			if cc == nil || cc.StaticCallee() == nil || cc.StaticCallee().Name() != "Allow" {
+				return
+			}
+			nA++
+			f := an.FactsAt(in)
+			w := an.FindPath(an.PathQuery{Fn: ae, Stop: func(x ssa.Instruction) bool { return x == in }, Target: an.IsReturn})
+			c.Check(len(f) == 0 && w == nil, "R3", "allow action applies its scope unconditionally", in.Pos(), "no guard, no path around the call", "the allow action calls Transaction.Allow only under "+shortFacts(f)+": in the other states (for example allow:request issued from a phase-2 rule) the allow is silently dropped and the remaining rules of its scope still run")
+		})
+		c.MinCount("R3", "Allow calls in the allow action", nA, 1)
+	}
 
 	// ---- R8 every SecMarker directive registers a marker: skipAfter resumes after the *next* marker of that name,
 	// so a marker that is accepted by the parser but not added (e.g. "already defined") moves the landing point
